@@ -30,7 +30,39 @@ def parseFont (fs : List (String × String)) : Option Font := do
 
 def showL (l : List Nat) (sep : String) : String := sep.intercalate (l.map toString)
 
+def showVR : Option VR → String
+  | none => "_"
+  | some r => s!"{r.x}.{r.y}.{r.dx}.{r.dy}"
+
+def showPA (p : PairAdj) : String := showVR p.1 ++ "&" ++ showVR p.2
+
+def readVR (s : String) : Option (Option VR) :=
+  if s == "_" then some none else
+  match s.splitOn "." with
+  | [a, b, c, d] => do pure (some { x := (← a.toInt?), y := (← b.toInt?), dx := (← c.toInt?), dy := (← d.toInt?) })
+  | _ => none
+
+def readPA (s : String) : Option PairAdj :=
+  match s.splitOn "&" with
+  | [a, b] => do pure ((← readVR a), (← readVR b))
+  | _ => none
+
+def showClasses (t : List (Nat × Nat)) : String := ",".intercalate (t.map fun p => s!"{p.1}-{p.2}")
+
+def readClasses (s : String) : Option (List (Nat × Nat)) :=
+  if s.isEmpty then some [] else
+  (s.splitOn ",").mapM fun e =>
+    match e.splitOn "-" with
+    | [g, c] => do pure ((← g.toNat?), (← c.toNat?))
+    | _ => none
+
 def showSub : Subtable → String
+  | .gpos1_1 cov adj => s!"f:{",".intercalate (cov.map toString)}:{showVR adj}"
+  | .gpos1_2 cov adj => "g:" ++ ",".intercalate ((cov.zip adj).map fun p => s!"{p.1}>{showVR p.2}")
+  | .gpos2_1 pairs => "h:" ++ ",".intercalate (pairs.map fun p => s!"{p.1.1}+{p.1.2}>{showPA p.2}")
+  | .gpos2_2 cov c1 c2 adjust =>
+    s!"i:{",".intercalate (cov.map toString)}:{showClasses c1}:{showClasses c2}:" ++
+      "!".intercalate (adjust.map fun row => "+".intercalate (row.map showPA))
   | .gsub1_1 cov d => s!"a:{showL cov "."}:{d}"
   | .gsub1_2 cov subst => "b:" ++ ",".intercalate ((cov.zip subst).map fun p => s!"{p.1}>{p.2}")
   | .gsub2_1 cov repl => "c:" ++ ",".intercalate ((cov.zip repl).map fun p => s!"{p.1}>{showL p.2 "."}")
@@ -53,6 +85,14 @@ def readPairs {β : Type} (s : String) (rhs : String → Option β) : Option (Li
     | [g, r] => do pure ((← g.toNat?), (← rhs r))
     | _ => none
 
+def readPairEntry (entry : String) : Option ((Nat × Nat) × PairAdj) :=
+  match entry.splitOn ">" with
+  | [k, v] =>
+    match k.splitOn "+" with
+    | [l, r] => do pure (((← l.toNat?), (← r.toNat?)), (← readPA v))
+    | _ => none
+  | _ => none
+
 def readSub (s : String) : Option Subtable :=
   match s.splitOn ":" with
   | ["a", cov, d] => do pure (.gsub1_1 (← readL cov ".") (← d.toNat?))
@@ -73,6 +113,17 @@ def readSub (s : String) : Option Subtable :=
         | [i, o] => do pure ((← readL i "."), (← o.toNat?))
         | _ => none
     pure (.gsub4_1 (ps.map (·.1)) (ps.map (·.2)))
+  | ["f", cov, adj] => do pure (.gpos1_1 (← readL cov ",") (← readVR adj))
+  | ["g", body] => do
+    let ps ← readPairs body readVR
+    pure (.gpos1_2 (ps.map (·.1)) (ps.map (·.2)))
+  | ["h", body] => do
+    let ps ← if body.isEmpty then some [] else (body.splitOn ",").mapM readPairEntry
+    pure (.gpos2_1 ps)
+  | ["i", cov, c1, c2, rows] => do
+    let adjust ← if rows.isEmpty then some [] else
+      (rows.splitOn "!").mapM fun row => (row.splitOn "+").mapM readPA
+    pure (.gpos2_2 (← readL cov ",") (← readClasses c1) (← readClasses c2) adjust)
   | _ => none
 
 def readLookup (s : String) : Option Lookup :=
@@ -116,7 +167,7 @@ def handle (op : String) (fs : List (String × String)) : String :=
     | _, _ => "bad-case"
   else if op == "dsl.explain" then
     match parseFont fs, (getField fs "lookups").bind readLookups with
-    | some f, some ls => natsHex (explainGsub f ls)
+    | some f, some ls => natsHex (if getField fs "tab" == some "gpos" then explainGpos f ls else explainGsub f ls)
     | _, _ => "bad-case"
   else if op == "dsl.roundtrip" then
     -- the property: Parse(ExplainGsub(l)) = l (up to the 1.1/1.2 identification)
@@ -126,7 +177,8 @@ def handle (op : String) (fs : List (String × String)) : String :=
   else if op == "dsl.modelrt" then
     -- the same on the model: parse (explain l)
     match parseFont fs, (getField fs "lookups").bind readLookups with
-    | some f, some ls => showOutcome (parseBytes f (explainGsub f ls))
+    | some f, some ls =>
+      showOutcome (parseBytes f (if getField fs "tab" == some "gpos" then explainGpos f ls else explainGsub f ls))
     | _, _ => "bad-case"
   else if op == "dsl.rtseed" then
     -- Parse(Explain(l)) = l for the forms not modelled here: compared structurally by the
